@@ -1,1 +1,7 @@
-/- C09 — property theorems (stub: the slice is not built yet). -/
+import GB.C09.Spec
+/- C09 — property theorems. -/
+open GB GB.C09
+
+/-- placeholder while the slice is being built -/
+theorem C09_placeholder : decode ⟨fun _ _ => none, fun _ _ => []⟩ { discard := true } .sing .bool (.bool true) = .ok (.sing (some (.bool true))) := by
+  rfl
